@@ -261,6 +261,42 @@ macro_rules! exec_rational {
                     let r = x.to_f32();
                     env.emit_f32("f32", r.value());
                 }
+                "rt" => {
+                    let x = &w.$pool[a];
+                    if x.numerator().bit_len() + x.denominator().bit_len() > MAXB {
+                        return env.skip();
+                    }
+                    let k = UBig::from_le_bytes(&op.lit) + UBig::ONE;
+                    let r: $T = match form % 8 {
+                        0 => {
+                            let (n, d) = x.clone().into_parts();
+                            <$T>::from_parts(n * &k, d * &k)
+                        }
+                        1 => x + <$T>::ZERO,
+                        2 => x * <$T>::ONE,
+                        3 => {
+                            if x.is_zero() {
+                                return env.skip();
+                            }
+                            x.clone().inv().inv()
+                        }
+                        4 => {
+                            let y = <$T>::from(k.clone());
+                            (x + &y) - &y
+                        }
+                        5 => {
+                            let y = <$T>::from_parts(IBig::from(k.clone()), UBig::from(3u8));
+                            (x * &y) / &y
+                        }
+                        6 => -(-x.clone()),
+                        _ => {
+                            let s = x.to_string();
+                            <$T>::from_str_radix(&s, 10).unwrap()
+                        }
+                    };
+                    w.$pool[dst] = r;
+                    env.res(pid, dst);
+                }
                 "clone" => {
                     let c = w.$pool[a].clone();
                     w.$pool[dst] = c;
